@@ -94,7 +94,10 @@ type gen struct {
 	hs    []ghandle
 	last  int
 	avoid bool // FindingReadn is listed: steer Readn away from its signature
-	queue []Op // rest of a multi-step scenario (grow-then-read)
+	queue []Op // rest of a multi-step scenario (grow-then-read, fault)
+	// noFaults: multi-connection cases (the write hook is per connection and
+	// a healed fault would have to be attributed to one of them)
+	noFaults bool
 }
 
 func clamp(v, lo, hi int64) int64 {
@@ -326,9 +329,31 @@ func (g *gen) growThenRead(t *rapid.T) bool {
 
 var faultKinds = []string{"unlink", "rename", "cut"}
 
-// faultTail ends a case with a Readn or Written over k = 2..5 iounits (+-1
-// byte) whose j-th Tread / Twrite is made to fail.
-func (g *gen) faultTail(t *rapid.T) []Op {
+// faultsFor lists the faults a helper can be struck by: all of them end the
+// case except rename, which is healed after the call.
+func faultsFor(kind string, healedOnly bool) []string {
+	if healedOnly {
+		return []string{"rename"}
+	}
+	if isWriteKind(kind) {
+		return []string{"unlink", "rename", "replace", "cut"}
+	}
+	return faultKinds
+}
+
+var chainKinds = []string{"read", "readat", "cread", "write", "writeat", "cwrite"}
+
+// faultScenario opens a fresh ORDWR handle and has one call struck by a fault:
+//
+//   - File.Readn over / File.Written of k = 2..5 iounits (+-1 byte) whose j-th
+//     Tread / Twrite (j = 1..k+1) is struck, or
+//   - a chain of k = 2..5 calls of one single-message helper (File.Read,
+//     ReadAt, Clnt.Read, File.Write, WriteAt, Clnt.Write) walking through the
+//     file piece by piece, the j-th of which is struck; the calls after it
+//     follow (they run when the fault was a healed rename).
+//
+// With healedOnly the fault is a rename, so the case goes on afterwards.
+func (g *gen) faultScenario(t *rapid.T, healedOnly bool) []Op {
 	u := g.u
 	var q []Op
 	if len(g.hs) >= maxHandles {
@@ -345,31 +370,79 @@ func (g *gen) faultTail(t *rapid.T) []Op {
 		q = append(q, Op{Kind: "open", File: fi, Mode: oRDWR})
 	}
 	hi := len(g.hs) - 1
+	g.last = hi
 	fi := g.hs[hi].file
 	k := int64(rapid.IntRange(2, 5).Draw(t, "fault_k"))
 	d := int64(rapid.IntRange(-1, 1).Draw(t, "fault_d"))
 	size := k*u + d
-	fault := rapid.SampledFrom(faultKinds).Draw(t, "fault")
-	if rapid.Bool().Draw(t, "fault_written") {
+	fill := func() {
+		if g.lens[fi] < size {
+			// make the file k iounits long first
+			q = append(q, Op{Kind: "written", Handle: hi, Off: uint64(g.lens[fi]), Count: uint32(size - g.lens[fi]), Seed: rapid.Uint64().Draw(t, "fault_fill")})
+			g.lens[fi] = size
+		}
+	}
+	switch rapid.IntRange(0, 3).Draw(t, "fault_shape") {
+	case 0: // Written
+		fault := rapid.SampledFrom(faultsFor("written", healedOnly)).Draw(t, "fault")
 		off := clamp(rapid.SampledFrom([]int64{0, g.lens[fi], g.lens[fi] - 1, 1}).Draw(t, "fault_woff"), 0, 6*u)
 		j := rapid.IntRange(1, int(k)+1).Draw(t, "fault_at")
 		q = append(q, Op{Kind: "written", Handle: hi, Off: uint64(off), Count: uint32(size), Seed: rapid.Uint64().Draw(t, "fault_seed"), Fault: fault, FaultAt: j})
-		return q
+		// what the file holds if the struck piece and the ones after it are refused
+		n := size
+		if int64(j) <= k+1 && int64(j-1)*u < size {
+			n = int64(j-1) * u
+		}
+		if n > 0 && off+n > g.lens[fi] {
+			g.lens[fi] = off + n
+		}
+	case 1: // Readn
+		fault := rapid.SampledFrom(faultsFor("readn", healedOnly)).Draw(t, "fault")
+		fill()
+		l := g.lens[fi]
+		off := clamp(rapid.SampledFrom([]int64{0, 1, u - 1, l - size}).Draw(t, "fault_roff"), 0, l)
+		cnt := rapid.SampledFrom([]int64{l - off, l - off + 7, size, 2*u + 1}).Draw(t, "fault_cnt")
+		if g.avoid && cnt > l-off {
+			cnt = l - off
+			hx.Excluded(FindingReadn)
+		}
+		j := rapid.IntRange(1, int((l-off)/u)+2).Draw(t, "fault_at")
+		q = append(q, Op{Kind: "readn", Handle: hi, Off: uint64(off), Count: uint32(clamp(cnt, 0, 8*u)), Fault: fault, FaultAt: j})
+	default: // a chain of single-message calls
+		kind := rapid.SampledFrom(chainKinds).Draw(t, "fault_chain_kind")
+		fault := rapid.SampledFrom(faultsFor(kind, healedOnly)).Draw(t, "fault")
+		piece := clamp(rapid.SampledFrom([]int64{u, u, u + 1, u - 1, 1, 2*u + 1}).Draw(t, "fault_piece"), 1, 3*u)
+		eff := piece
+		if eff > u {
+			eff = u
+		}
+		j := rapid.IntRange(1, int(k)).Draw(t, "fault_at")
+		if isReadKind(kind) {
+			fill()
+		}
+		pos := int64(0) // the fresh handle's sequential position
+		for i := 1; i <= int(k); i++ {
+			o := Op{Kind: kind, Handle: hi, Count: uint32(piece)}
+			if kind != "read" && kind != "write" {
+				o.Off = uint64(pos)
+			}
+			if isWriteKind(kind) {
+				o.Seed = rapid.Uint64().Draw(t, "fault_seed")
+			}
+			if i == j {
+				o.Fault, o.FaultAt = fault, 1
+			}
+			q = append(q, o)
+			if i == j {
+				continue // refused: nothing moves
+			}
+			pos += eff
+			if isWriteKind(kind) && pos > g.lens[fi] {
+				g.lens[fi] = pos
+			}
+		}
+		g.hs[hi].off = pos
 	}
-	if g.lens[fi] < size {
-		// make the file k iounits long first
-		q = append(q, Op{Kind: "written", Handle: hi, Off: uint64(g.lens[fi]), Count: uint32(size - g.lens[fi]), Seed: rapid.Uint64().Draw(t, "fault_fill")})
-		g.lens[fi] = size
-	}
-	l := g.lens[fi]
-	off := clamp(rapid.SampledFrom([]int64{0, 1, u - 1, l - size}).Draw(t, "fault_roff"), 0, l)
-	cnt := rapid.SampledFrom([]int64{l - off, l - off + 7, size, 2*u + 1}).Draw(t, "fault_cnt")
-	if g.avoid && cnt > l-off {
-		cnt = l - off
-		hx.Excluded(FindingReadn)
-	}
-	j := rapid.IntRange(1, int((l-off)/u)+2).Draw(t, "fault_at")
-	q = append(q, Op{Kind: "readn", Handle: hi, Off: uint64(off), Count: uint32(clamp(cnt, 0, 8*u)), Fault: fault, FaultAt: j})
 	return q
 }
 
@@ -383,6 +456,13 @@ func (g *gen) op(t *rapid.T) Op {
 	u := g.u
 	w := rapid.IntRange(0, 99).Draw(t, "what")
 	if w >= 40 && w < 47 && len(g.hs) > 0 && g.growThenRead(t) {
+		o := g.queue[0]
+		g.queue = g.queue[1:]
+		return o
+	}
+	if w >= 47 && w < 50 && !g.noFaults {
+		// a call struck by a fault that is healed afterwards: the case goes on
+		g.queue = g.faultScenario(t, true)
 		o := g.queue[0]
 		g.queue = g.queue[1:]
 		return o
@@ -526,7 +606,7 @@ func genCase(t *rapid.T) *Case {
 	c.Ops = append(c.Ops, g.queue...) // finish a scenario cut off by the slice length
 	g.queue = nil
 	if rapid.IntRange(0, 3).Draw(t, "fault_tail") == 3 {
-		c.Ops = append(c.Ops, g.faultTail(t)...)
+		c.Ops = append(c.Ops, g.faultScenario(t, false)...)
 	}
 	c.FinalChunk = uint32(clamp(int64(g.countOf(t, 0, 3*g.u)), 1, 3*g.u))
 	return c
@@ -640,6 +720,37 @@ func genConc(t *rapid.T) *Case {
 			r.Count = lo
 		}
 	}
+	// calls answered with Rerror (failed.go): before the goroutines start and,
+	// by one more goroutine, while they run
+	failCall := func() FailCall {
+		fconn := 0
+		if len(us) > 1 {
+			fconn = rapid.IntRange(0, len(us)-1).Draw(t, "fconn")
+		}
+		u := us[fconn]
+		fc := FailCall{Kind: rapid.SampledFrom(failKinds).Draw(t, "fkind"), Conn: fconn, Seed: rapid.Uint64().Draw(t, "fseed")}
+		switch fc.Kind {
+		case "read-wo", "read-gone":
+			fc.Helper = rapid.SampledFrom(readKinds).Draw(t, "fhelper")
+		case "write-ro", "write-gone":
+			fc.Helper = rapid.SampledFrom(writeKinds).Draw(t, "fhelper")
+		default:
+			return fc
+		}
+		fc.Len = int(clamp(rapid.SampledFrom([]int64{0, 1, u - 1, 3*u + 1}).Draw(t, "flen"), 0, 20000))
+		fc.Off = uint64(clamp(rapid.SampledFrom([]int64{0, 0, 1, u}).Draw(t, "foff"), 0, 20000))
+		fc.Count = uint32(clamp(rapid.SampledFrom([]int64{1, u, u + 1, 2*u + 1}).Draw(t, "fcount"), 1, 20000))
+		return fc
+	}
+	for k := rapid.SampledFrom([]int{0, 1, 1, 2, 3, 6}).Draw(t, "failed_before"); k > 0; k-- {
+		c.Conc.Failed = append(c.Conc.Failed, failCall())
+	}
+	for k := rapid.SampledFrom([]int{0, 0, 1, 2, 3}).Draw(t, "failed_during"); k > 0; k-- {
+		c.Conc.FailedDuring = append(c.Conc.FailedDuring, failCall())
+	}
+	if len(c.Conc.FailedDuring) > 0 {
+		c.Conc.FailRounds = rapid.IntRange(1, 30).Draw(t, "fail_rounds")
+	}
 	// files whose single fid is used by several goroutines at once (shared.go);
 	// they live on the case's own client
 	u = u0
@@ -710,7 +821,7 @@ func sampleConc(c *Case) interface{} {
 	if len(c.Conc.Writers) > 0 {
 		nch = len(c.Conc.Writers[0].Lens)
 	}
-	s.Desc = fmt.Sprintf("%d writers x %d chunks (lens truncated to 6), %d readers, %d files with a shared fid", len(c.Conc.Writers), nch, len(c.Conc.Readers), len(c.Conc.Shared))
+	s.Desc = fmt.Sprintf("%d writers x %d chunks (lens truncated to 6), %d readers, %d files with a shared fid, %d failing calls before and %d x %d among the goroutines", len(c.Conc.Writers), nch, len(c.Conc.Readers), len(c.Conc.Shared), len(c.Conc.Failed), len(c.Conc.FailedDuring), c.Conc.FailRounds)
 	return s
 }
 
@@ -876,7 +987,7 @@ func TestEnumBoundary(t *testing.T) {
 			// faults: Readn / Written over k iounits (+-1) whose j-th piece fails
 			for k := int64(2); k <= 5; k++ {
 				for _, d := range []int64{-1, 0, 1} {
-					for _, fault := range faultKinds {
+					for _, fault := range faultsFor("written", false) {
 						for j := 2; j <= int(k)+1; j++ {
 							if !mine() {
 								continue
@@ -891,8 +1002,13 @@ func TestEnumBoundary(t *testing.T) {
 								hx.Excluded(FindingReadn)
 							}
 							rc.Ops = append(rc.Ops, Op{Kind: "open", File: 0, Mode: oREAD},
-								Op{Kind: "readn", Handle: 0, Off: 0, Count: uint32(cnt), Fault: fault, FaultAt: j})
-							run(rc)
+								Op{Kind: "readn", Handle: 0, Off: 0, Count: uint32(cnt), Fault: fault, FaultAt: j},
+								// reached when the fault was healed (rename) or never fired
+								Op{Kind: "readn", Handle: 0, Off: 0, Count: uint32(size)},
+								Op{Kind: "read", Handle: 0, Count: uint32(u)})
+							if fault != "replace" {
+								run(rc)
+							}
 							if j > int(k) && d <= 0 {
 								continue // Written over k*U+d bytes sends no (k+1)-th Twrite
 							}
@@ -900,8 +1016,46 @@ func TestEnumBoundary(t *testing.T) {
 								Files: []FileSpec{{Len: 1, Seed: 9}},
 								Desc:  fmt.Sprintf("enum fault written msize=%d dotu=%v %dU%+d bytes %s before Twrite #%d", nm, dotu, k, d, fault, j)}
 							wc.Ops = append(wc.Ops, Op{Kind: "open", File: 0, Mode: oRDWR},
-								Op{Kind: "written", Handle: 0, Off: 1, Count: uint32(size), Seed: uint64(size) * 5, Fault: fault, FaultAt: j})
+								Op{Kind: "written", Handle: 0, Off: 1, Count: uint32(size), Seed: uint64(size) * 5, Fault: fault, FaultAt: j},
+								// reached when the fault was healed (rename) or never fired
+								Op{Kind: "readn", Handle: 0, Off: 0, Count: uint32(size + 1)},
+								Op{Kind: "written", Handle: 0, Off: uint64(u), Count: uint32(2*u + 1), Seed: 77})
 							run(wc)
+						}
+					}
+				}
+			}
+			// faults on the j-th call of a chain of single-message helper calls
+			for _, kind := range chainKinds {
+				for _, fault := range faultsFor(kind, false) {
+					for _, piece := range []int64{u, u + 1, 7} {
+						for j := 1; j <= 3; j++ {
+							if !mine() {
+								continue
+							}
+							eff := piece
+							if eff > u {
+								eff = u
+							}
+							c := &Case{ClientMsize: nm, ServerMsize: 65536, Dotu: dotu, FinalChunk: uint32(u),
+								Files: []FileSpec{{Len: int(3*u + 1), Seed: uint64(piece) + 21}},
+								Desc:  fmt.Sprintf("enum fault chain %s msize=%d dotu=%v pieces of %d: %s at call #%d", kind, nm, dotu, piece, fault, j)}
+							c.Ops = append(c.Ops, Op{Kind: "open", File: 0, Mode: oRDWR})
+							pos := int64(0)
+							for i := 1; i <= 4; i++ {
+								o := Op{Kind: kind, Handle: 0, Count: uint32(piece), Seed: uint64(i) * 1009}
+								if kind != "read" && kind != "write" {
+									o.Off = uint64(pos)
+								}
+								if i == j {
+									o.Fault, o.FaultAt = fault, 1
+								} else {
+									pos += eff
+								}
+								c.Ops = append(c.Ops, o)
+							}
+							c.Ops = append(c.Ops, Op{Kind: "readn", Handle: 0, Off: 0, Count: uint32(3*u + 1)})
+							run(c)
 						}
 					}
 				}
@@ -955,5 +1109,5 @@ func TestEnumBoundary(t *testing.T) {
 	if fails > 2 {
 		t.Errorf("... and %d more failing enumerated cases", fails-2)
 	}
-	hx.Exhaustive("msize 128 and 129 (thorough: and 256) x both dialects: file lengths {0,1,U-1,U,U+1,2U-1,2U,2U+1,3U+1} x offsets {0,1,U-1,U,U+1,2U,L-1,L,L+1,L-U,L+U} x counts {0,1,U-1,U,U+1,2U+1,3U+2,rem-1,rem,rem+1} for Clnt.Read, File.ReadAt, File.Readn; sequential File.Read to EOF with 10 buffer sizes; Clnt.Write, File.WriteAt, File.Written on fresh files of lengths {0,1,U-1,U,U+1,2U+1} x 9 offsets x 6 counts; all 36 pairs of consecutive File.Write sizes; grow scenarios: lengths {0,1,U,U+1} x growth {1,U,2U+17}: reads by all helpers at offsets around the old and the new end through a fid opened before another fid extended the file, through the extending fid, and create->write->read-back through one ORDWR fid; faults: Readn of a k*U+d byte file and Written of k*U+d bytes (k=2..5, d=-1,0,1) x {unlink, rename, cut} exactly before the j-th Tread/Twrite, j=2..k+1")
+	hx.Exhaustive("msize 128 and 129 (thorough: and 256) x both dialects: file lengths {0,1,U-1,U,U+1,2U-1,2U,2U+1,3U+1} x offsets {0,1,U-1,U,U+1,2U,L-1,L,L+1,L-U,L+U} x counts {0,1,U-1,U,U+1,2U+1,3U+2,rem-1,rem,rem+1} for Clnt.Read, File.ReadAt, File.Readn; sequential File.Read to EOF with 10 buffer sizes; Clnt.Write, File.WriteAt, File.Written on fresh files of lengths {0,1,U-1,U,U+1,2U+1} x 9 offsets x 6 counts; all 36 pairs of consecutive File.Write sizes; grow scenarios: lengths {0,1,U,U+1} x growth {1,U,2U+17}: reads by all helpers at offsets around the old and the new end through a fid opened before another fid extended the file, through the extending fid, and create->write->read-back through one ORDWR fid; faults: Readn of a k*U+d byte file and Written of k*U+d bytes (k=2..5, d=-1,0,1) x {unlink, rename (healed after the call, the case goes on), cut; Written also: replaced by a directory} exactly before the j-th Tread/Twrite, j=2..k+1; chains of four calls of File.Read/ReadAt/Clnt.Read/File.Write/WriteAt/Clnt.Write with pieces of {U, U+1, 7} bytes whose j-th call (j=1..3) is struck by each fault; the count reported by a write helper, with or without an error, is compared with the host file read through a descriptor opened before the call")
 }
